@@ -7,6 +7,7 @@
 From Coq Require Import List ZArith NArith Bool Arith.
 Import ListNotations.
 From RV Require Import Lib.Str Model.DataFile Proofs.DataFileP.
+From RV Require Import Gen.GenFacts.
 
 (** Right after the crash, for every cut: the file loads, and exactly the data points whose lines
     arrived completely are there - each once, whole, for the right run (j of them, where the lines
@@ -108,6 +109,13 @@ Proof.
   - vm_compute. repeat split; reflexivity.
 Qed.
 Print Assumptions C09_invocation_complete_refuted.
+
+(** The write unit is the data point: its lines are written and flushed together inside the persistence lock
+    (read off _FilePersistence.persist_data_point on every run), so what is on disk while a benchmark process runs
+    ends with a complete data point. *)
+Theorem C09_flush_per_data_point : persist_locked = true.
+Proof. reflexivity. Qed.
+Print Assumptions C09_flush_per_data_point.
 
 (** Non-vacuity: a data point of two lines, cut after its first line, then resumed. *)
 Example C09_example :
